@@ -85,6 +85,7 @@ func init() {
 func (c *context) RecvMsg() (*protocol.Message, error) {
 	s := c.s
 
+	tq := nilQ
 	for {
 		s.Lock()
 		if c.closed {
@@ -92,7 +93,6 @@ func (c *context) RecvMsg() (*protocol.Message, error) {
 			return nil, protocol.ErrClosed
 		}
 		cq := c.closeQ
-		tq := nilQ
 		rq := s.recvQ
 		zq := s.sizeQ
 		expTime := c.recvExpire
@@ -100,7 +100,7 @@ func (c *context) RecvMsg() (*protocol.Message, error) {
 		c.recvPipe = nil
 		s.Unlock()
 
-		if expTime > 0 {
+		if tq == nil && expTime > 0 {
 			tq = time.After(expTime)
 		}
 
